@@ -85,6 +85,146 @@ def _mk_dunder(name):
 DUNDER_CONTRACTS = [_mk_dunder(n) for n in DUNDERS]
 
 
+class GuardedBuilder(ModeMixin, LibModel):
+    """CanBehaveLikeAVariable.__call__ / __getitem__ / __contains__ (C08): like the comparison operators, calling, indexing
+    and testing membership on a variable is rejected (AttributeError) outside every symbolic block and builds an expression
+    node over `self` inside one"""
+    cls = 'CanBehaveLikeAVariable'
+    props = ('C08',)
+    modes = ('sound',)
+    dunder = '__call__'
+    BUILDS = {'__call__': 'Call', '__getitem__': 'Index', '__contains__': 'Comparator'}
+
+    @property
+    def qual(self):
+        return f'symbolic:CanBehaveLikeAVariable.{self.dunder}'
+
+    def modenv(self):
+        env = super().modenv()
+        for c in ('Call', 'Index', 'Comparator'):
+            env[c] = C(Ref('class', c))
+        return env
+
+    def setup(self, eng):
+        st = State()
+        self.n = z3.Const('self', Z.Node)
+        st.locals['self'] = ZV(self.n, 'node')
+        st.ghost['self'] = self.n
+        for nm in ('other', 'key', 'item'):
+            st.locals[nm] = Obj('operand', {'tag': nm})
+        st.locals['args'] = Obj('argpack', {})
+        st.locals['kwargs'] = Obj('kwpack', {})
+        st.ghost['mode'] = z3.Const('mode_now', Mode)
+        st.assume(MODE_DISTINCT)
+        return [st]
+
+    def call(self, eng, st, f, args, kwargs, node):
+        if isinstance(f, C) and isinstance(f.v, Ref) and f.v.kind == 'class' and f.v.name in ('Call', 'Index', 'Comparator'):
+            return [(st, Obj('built_node', {'cls': f.v.name, 'args': list(args)}))]
+        return super().call(eng, st, f, args, kwargs, node)
+
+    def getattr(self, eng, st, recv, name):
+        if isinstance(recv, C) and isinstance(recv.v, Ref) and recv.v.kind == 'class' and name == '__name__':
+            return [(st, C('<cls>'))]
+        if isinstance(recv, ZV) and recv.ty == 'node' and name == '__class__':
+            return [(st, C(Ref('class', 'X')))]
+        return super().getattr(eng, st, recv, name)
+
+    def on_exit(self, eng, o):
+        st = o.st
+        mode = st.ghost['mode']
+        if o.sig == RAISE:
+            nm = o.val.v.name if isinstance(o.val, C) and isinstance(o.val.v, Ref) else '?'
+            eng.oblige(st, "C08/rejected-only-outside-symbolic-mode", z3.And(mode == NoneMode, z3.BoolVal(nm == 'AttributeError')))
+            return
+        eng.oblige(st, "C08/builds-an-expression-only-inside-symbolic-mode", mode != NoneMode)
+        v = o.val
+        ok = (isinstance(v, Obj) and v.kind == 'built_node' and v.data['cls'] == self.BUILDS[self.dunder]
+              and any(isinstance(a, ZV) and a.ty == 'node' and a.t.eq(self.n) for a in v.data['args']))
+        eng.oblige(st, f"C08/{self.dunder}/builds-a-{self.BUILDS[self.dunder]}-node-over-self", z3.BoolVal(bool(ok)))
+
+    def signature(self, ob, model):
+        return {}
+
+
+GUARDED = [type('Guarded' + n.strip('_').capitalize(), (GuardedBuilder,), {'dunder': n}) for n in ('__call__', '__getitem__', '__contains__')]
+
+
+class PredicateWrapper(ModeMixin, LibModel):
+    """predicate.predicate.<locals>.wrapper - what a @predicate function is after decoration (C08, C09): outside every block
+    the decorated function is called, once, with the arguments as given and its result is returned (ordinary Python); inside a
+    block - a query block AND a rule block - nothing is executed: a Variable for the deferred call is built"""
+    qual = 'predicate:predicate.<locals>.wrapper'
+    cls = None
+    props = ('C08', 'C09')
+    modes = ('sound',)
+    trusted = ("how the positional arguments are matched to parameter names (inspect.signature) is summarised",)
+
+    def modenv(self):
+        env = super().modenv()
+        env['function'] = C(Ref('func', 'user_function'))
+        env['inspect'] = C(Ref('module', 'inspect'))
+        env['PredicateType'] = C(Ref('module', 'PredicateType'))
+        env['Variable'] = C(Ref('class', 'Variable'))
+        return env
+
+    def setup(self, eng):
+        st = State()
+        st.locals['args'] = Obj('argpack', {})
+        st.locals['kwargs'] = Obj('kwpack', {})
+        st.ghost['mode'] = z3.Const('mode_now', Mode)
+        st.assume(MODE_DISTINCT)
+        st.ghost['calls'] = []
+        return [st]
+
+    def accepts_star(self, f):
+        return True
+
+    def listcomp(self, eng, st, e):
+        return [(st, Obj('param_names', {}))]
+
+    def getattr(self, eng, st, recv, name):
+        if isinstance(recv, C) and recv.v == Ref('func', 'user_function') and name == '__name__':
+            return [(st, C('<function name>'))]
+        if isinstance(recv, Obj) and recv.kind == 'kwpack':
+            return [(st, Meth(recv, name))]
+        return super().getattr(eng, st, recv, name)
+
+    def call(self, eng, st, f, args, kwargs, node):
+        if isinstance(f, C) and isinstance(f.v, Ref) and f.v.name in ('zip', 'dict'):
+            return [(st, Obj('pairs', {}))]
+        if isinstance(f, Meth) and isinstance(f.recv, Obj) and f.recv.kind == 'kwpack' and f.name == 'update':
+            return [(st, NONE)]
+        if isinstance(f, C) and isinstance(f.v, Ref) and f.v.name in ('user_function', 'Variable'):
+            st = st.clone()
+            tag = lambda a: (a.kind if a.kind != 'star' else '*' + tag(a.data['of'])) if isinstance(a, Obj) else repr(a)  # noqa
+            st.ghost['calls'] = st.ghost['calls'] + [(f.v.name, [tag(a) for a in args], sorted(kwargs))]
+            return [(st, Obj('result', {'of': f.v.name}))]
+        return super().call(eng, st, f, args, kwargs, node)
+
+    def on_exit(self, eng, o):
+        st = o.st
+        mode = st.ghost['mode']
+        if o.sig != RETURN:
+            eng.oblige(st, "C08/predicate/returns", z3.BoolVal(False))
+            return
+        calls = st.ghost['calls']
+        names = [c[0] for c in calls]
+        v = o.val
+        concrete = (names == ['user_function'] and isinstance(v, Obj) and v.kind == 'result' and v.data['of'] == 'user_function'
+                    and calls[0][1] == ['*argpack'] and calls[0][2] == ['**'])
+        symbolic = names == ['Variable'] and isinstance(v, Obj) and v.kind == 'result' and v.data['of'] == 'Variable'
+        eng.oblige(st, "C08/predicate/outside-every-block-the-function-is-called-once-with-the-given-arguments",
+                   z3.Implies(mode == NoneMode, z3.BoolVal(bool(concrete))))
+        eng.oblige(st, "C08/predicate/inside-a-query-or-rule-block-nothing-is-executed-and-a-deferred-call-is-built",
+                   z3.Implies(mode != NoneMode, z3.BoolVal(bool(symbolic))))
+
+    def signature(self, ob, model):
+        m = z3.Const('mode_now', Mode)
+        return {'mode': 'None' if str(model.eval(m == NoneMode, model_completion=True)) == 'True' else
+                ('Rule' if str(model.eval(m == RuleMode, model_completion=True)) == 'True' else 'Query')}
+
+
 class InContract(LibModel):
     """entity.in_(item, container): item in container  ==  operator.contains(container, item)"""
     qual = 'entity:in_'
@@ -285,4 +425,4 @@ class ExtractVarsAndExpr(LibModel):
         return {'got': ob.meta.get('got'), 'want': ob.meta.get('want')}
 
 
-CONTRACTS = DUNDER_CONTRACTS + [InContract, ContainsContract, ChainedLogic, ExtractVarsAndExpr]
+CONTRACTS = DUNDER_CONTRACTS + GUARDED + [PredicateWrapper, InContract, ContainsContract, ChainedLogic, ExtractVarsAndExpr]
